@@ -1286,6 +1286,35 @@ int main(int argc, char** argv) {
         alloc_task(c);
       }
     }
+    // polytree executions whose horizontal joins split a ring and later join it (with its 'splits' list) onto another ring:
+    // the only inputs on which MoveSplits allocates, i.e. on which the ordering of ProcessHorzJoins' ownership hand-over
+    // around an allocation matters
+    {
+      auto R = [](int64_t l, int64_t t, int64_t r, int64_t b) { return Path64{{l, t}, {r, t}, {r, b}, {l, b}}; };
+      std::vector<std::pair<Paths64, Paths64>> fixed = {
+        {{R(5, 2, 11, 3), R(4, 2, 9, 3), R(4, 3, 6, 6), R(3, 1, 8, 4)}, {}},
+        {{R(10, 30, 70, 90), R(90, 40, 100, 60), R(0, 30, 50, 90), Path64{{60, 90}, {100, 90}, {100, 40}, {60, 40}}, R(0, 100, 60, 150)},
+         {Path64{{90, 90}, {150, 90}, {150, 40}, {90, 40}}, R(100, 10, 140, 60), R(70, 50, 120, 100)}},
+        {{R(0, 0, 26, 26), R(2, 2, 24, 24), R(6, 6, 20, 20), R(8, 8, 18, 18), R(10, 20, 22, 12), R(6, 16, 22, 12), R(4, 24, 16, 12), R(16, 16, 22, 20)},
+         {R(0, 10, 20, 12)}}};
+      int n_rand = g_thorough ? 24 : 6;
+      for (int i = 0; i < n_rand; ++i) {
+        Paths64 s; int n = 4 + (int)g.range(0, 5);
+        for (int j = 0; j < n; ++j) {
+          int64_t l = g.range(0, 10), t = g.range(0, 8);
+          s.push_back(R(l, t, l + 1 + g.range(0, 6), t + 1 + g.range(0, 4)));
+        }
+        fixed.push_back({s, {}});
+      }
+      for (size_t i = 0; i < fixed.size(); ++i)
+        for (int fr = 0; fr < 2; ++fr) {
+          Case c; c.op = OP_C64_TREE; c.gen = "alloc.rect-lattice";
+          c.A = fixed[i].first; c.B = fixed[i].second;
+          c.p[0] = (int64_t)ClipType::Union; c.p[1] = fr == 0 ? (int64_t)FillRule::EvenOdd : (int64_t)FillRule::NonZero; c.p[5] = 2;
+          alloc_task(c);
+          if (i >= 3 && fr == 0) break;
+        }
+    }
     tick("allocation-failure enumeration");
   }
   vh::stat("sandbox.watchdog_seconds", WATCHDOG_S);
